@@ -22,7 +22,7 @@ let rstate_of = function
   | s -> failwith ("bad state " ^ s)
 let action_of (s : string) : action =
   match s with
-  | "none" -> ANone | "bare" -> ABare | "errstmt" -> AErrorStmt | "restartstmt" -> ARestartStmt | "fail" -> AFail
+  | "absent" -> AAbsent | "none" -> ANone | "bare" -> ABare | "errstmt" -> AErrorStmt | "restartstmt" -> ARestartStmt | "fail" -> AFail
   | _ when String.length s > 2 && String.sub s 0 2 = "r-" -> ARet (rstate_of (String.sub s 2 (String.length s - 2)))
   | _ -> failwith ("bad action " ^ s)
 
@@ -64,10 +64,11 @@ let req_of (x : sexp) =
 let xst_name = function XNone -> "NONE" | XHit -> "HIT" | XMiss -> "MISS"
 
 let show_report (r : report) : string =
-  let flows = String.concat "," (List.map (fun e -> scope_name (scope_of (fst (fst e)))) r.r_trace) in
-  Printf.sprintf "R flows=%s restarts=%d cached=%d xcache=%s error=%d obs=%s"
+  let flows = String.concat "," (List.map scope_name (r_flows r)) in
+  Printf.sprintf "R flows=%s restarts=%d cached=%d xcache=%s xhits=%s error=%d obs=%s"
     flows (int_of_nat r.r_restarts) (if r.r_cached then 1 else 0)
     (match r.r_xcache with None -> "-" | Some x -> xst_name x)
+    (match r.r_xhits with None -> "-" | Some h -> string_of_int (int_of_nat h))
     (if r.r_error then 1 else 0)
     (String.concat "," (List.map (fun z -> string_of_int (int_of_z z)) r.r_obs))
 
